@@ -457,6 +457,15 @@ func genCases(thorough bool) []caseT {
 	tm("[[route]]\nkey = 'r1'\ntype = 'bogus'\ndestinations = ['10.0.0.1:2003']\n")
 	tm("[[rewriter]]\nold = ''\nnew = 'b'\nmax = -1\n")
 	tm("[[rewriter]]\nold = '/a(/'\nnew = 'b'\nmax = -1\n")
+	// boundary-length words where a '/'-delimited regex may be written: old and not, as command and as TOML
+	for _, w := range []string{"/", "//", "///", "/a", "a/", "/a/", "/(/"} {
+		cmd(nil, fmt.Sprintf("addRewriter %s b -1", w))
+		cmd(nil, fmt.Sprintf("addRewriter a %s -1", w))
+		tm(fmt.Sprintf("[[rewriter]]\nold = '%s'\nnew = 'b'\nnot = ''\nmax = -1\n", w))
+		tm(fmt.Sprintf("[[rewriter]]\nold = 'a'\nnew = 'b'\nnot = '%s'\nmax = -1\n", w))
+		tm(fmt.Sprintf("[[rewriter]]\nold = '%s'\nnew = '%s'\nnot = '%s'\nmax = 1\n", w, w, w))
+	}
+	tm("[[rewriter]]\nold = ''\nnew = ''\nnot = ''\nmax = -1\n")
 	tm("[[rewriter]]\nold = 'a'\nnew = 'b'\nnot = '/(/'\nmax = -1\n")
 	tm("[[blacklist]]\nregex = '('\n")
 	tm("blacklist = ['regex (', 'prefix a', 'bogus']\n")
